@@ -203,9 +203,10 @@ Definition dnd_expected (m : dnd_meta) (ev : env) : view :=
    ++ [("dnd.pr.u", RNum "1/angstrom" (pr_u p)); ("dnd.pr.v", RNum "1/angstrom" (pr_v p));
        ("dnd.pr.has_w", RInt (match pr_w p with [] => 0 | _ => 1 end))]
    ++ (match pr_w p with [] => [] | _ => [("dnd.pr.w", RNum "1/angstrom" (pr_w p))] end)
-   ++ [("dnd.pr.nonorth", RInt (if pr_nonorth p then 1 else 0)); ("dnd.pr.type", RStr (pr_type p));
-       ("nd.shape", RNum "shape" (ax_nbins a)); ("nd.shapes_equal", RInt 1); ("nd.all_zero", RInt 1);
-       ("nd.volume", RInt (prod_dims (ax_nbins a)))])%list.
+   ++ [("dnd.pr.nonorth", RInt (if pr_nonorth p then 1 else 0)); ("dnd.pr.type", RStr (pr_type p))])%list.
+Definition nd_expected (m : dnd_meta) : view :=
+  [("nd.shape", RNum "shape" (ax_nbins (dm_axes m))); ("nd.shapes_equal", RInt 1); ("nd.all_zero", RInt 1);
+   ("nd.volume", RInt (prod_dims (ax_nbins (dm_axes m))))].
 
 (* the LAST call of each kind is the one that counts *)
 Definition last_pix (cs : list call) := fold_left (fun a c => match c with CPix p xs nd => Some (p, xs, nd) | _ => a end) cs None.
@@ -214,20 +215,13 @@ Definition last_inst (cs : list call) := fold_left (fun a c => match c with CIns
 Definition last_samp (cs : list call) := fold_left (fun a c => match c with CSamp s => Some s | _ => a end) cs None.
 Definition has_det (cs : list call) := existsb (fun c => match c with CDet => true | _ => false end) cs.
 
+(* in the order of the blocks in the file *)
 Definition expected_view (ev : env) (title : bytes) (cs : list call) : view :=
   let nfiles := match last_pix cs with Some (_, xs, _) => N.of_nat (length xs) | None => 0%N end in
   ([("main.full_filename", RStr (env_full ev)); ("main.title", RStr title);
     ("main.nfiles", RInt nfiles); ("main.date", RStr (env_date_main ev))]
-   ++ (match last_pix cs with
-       | Some (p, xs, _) =>
-           ("exp.n", RInt (N.of_nat (length xs))) :: mapi exp_run_view 0 xs
-           ++ [("pixmeta.full_filename", RStr (env_full ev)); ("pixmeta.npix", RInt (pw_npix p));
-               ("pixmeta.range", RNum "none" (ranges (pw_rows p) (pw_int p)));
-               ("pixmeta.range_shape", RNum "shape" [2%N; pw_nrows p]);
-               ("pix.shape", RNum "shape" [pw_npix p; pw_nrows p]);
-               ("pix.f32", RU32 (concat (pixels_of p)))]
-       | None => [] end)
    ++ (if has_det cs then [("det.n", RInt 0); ("det.n_unique", RInt 0)] else [])
+   ++ (match last_dnd cs with Some m => dnd_expected m ev | None => [] end)
    ++ (match last_inst cs with
        | Some i => [("inst.n", RInt nfiles); ("inst.shared", RInt 1); ("inst.n_unique", RInt 1);
                     ("inst.0.name", RStr (in_name i)); ("inst.0.src_name", RStr (in_src_name i));
@@ -238,7 +232,17 @@ Definition expected_view (ev : env) (title : bytes) (cs : list call) : view :=
                     ("samp.0.name", RStr (sa_name s)); ("samp.0.alatt", RNum "angstrom" (sa_alatt s));
                     ("samp.0.angdeg", RNum "deg" (sa_angdeg s))]
        | None => [] end)
-   ++ (match last_dnd cs with Some m => dnd_expected m ev | None => [] end))%list.
+   ++ (match last_pix cs with
+       | Some (p, xs, _) =>
+           ("exp.n", RInt (N.of_nat (length xs))) :: mapi exp_run_view 0 xs
+           ++ [("pixmeta.full_filename", RStr (env_full ev)); ("pixmeta.npix", RInt (pw_npix p));
+               ("pixmeta.range", RNum "none" (ranges (pw_rows p) (pw_int p)));
+               ("pixmeta.range_shape", RNum "shape" [2%N; pw_nrows p])]
+       | None => [] end)
+   ++ (match last_dnd cs with Some m => nd_expected m | None => [] end)
+   ++ (match last_pix cs with
+       | Some (p, _, _) => [("pix.shape", RNum "shape" [pw_npix p; pw_nrows p]); ("pix.f32", RU32 (concat (pixels_of p)))]
+       | None => [] end))%list.
 
 (* block names in the table: a function of WHICH kinds of calls were made, not of their order *)
 Definition expected_names (cs : list call) : list bname :=
@@ -248,6 +252,25 @@ Definition expected_names (cs : list call) : list bname :=
    ++ (match last_inst cs with Some _ => [n_inst] | None => [] end)
    ++ (match last_samp cs with Some _ => [n_samp] | None => [] end)
    ++ (if pix then [n_exp; n_pmeta] else []) ++ (if dnd then [n_nd] else []) ++ (if pix then [n_pwrap] else []))%list.
+Definition keys_of_names (l : list bname) : list bkey :=
+  flat_map (fun n => match key_of_name n with Some k => [k] | None => [] end) l.
+
+(* the same with the order of the regular blocks taken from a given tuple (the one regenerated from the source) *)
+Definition present (cs : list call) (k : bkey) : bool :=
+  match k with
+  | KMain => true
+  | KDet => has_det cs
+  | KDmeta => match last_dnd cs with Some _ => true | None => false end
+  | KInst => match last_inst cs with Some _ => true | None => false end
+  | KSamp => match last_samp cs with Some _ => true | None => false end
+  | KExp | KPmeta => match last_pix cs with Some _ => true | None => false end
+  | KNd | KPwrap => false
+  end.
+Definition expected_names_ord (order : list bkey) (cs : list call) : list bname :=
+  (map key_name (filter (present cs) order)
+   ++ (match last_dnd cs with Some _ => [n_nd] | None => [] end)
+   ++ (match last_pix cs with Some _ => [n_pwrap] | None => [] end))%list.
+
 Definition expected_type (n : bname) : bytes :=
   if name_eqb n n_nd then s_dnd_block else if name_eqb n n_pwrap then s_pix_block else s_data_block.
 
@@ -285,9 +308,6 @@ Definition dec_str (n : N) : string := nat_str (N.to_nat n).
 Definition ndims_of (cs : list call) : N := match last_pix cs with Some (_, _, nd) => nd | None => 0%N end.
 
 (* C12: structure *)
-Definition keys_of_names (l : list bname) : list bkey :=
-  flat_map (fun n => match key_of_name n with Some k => [k] | None => [] end) l.
-
 Definition check_c12 (order : list bname) (bound : bound_kind) (c : case) : string :=
   let model := encode_file (keys_of_names order) (c_endian c) (c_env c) bound (c_title c) (c_calls c) (c_chunk c) in
   let m := if list_eqb model (c_file c) then ""
@@ -299,7 +319,7 @@ Definition check_c12 (order : list bname) (bound : bound_kind) (c : case) : stri
                join (nonempty [
                  (if endian_eqb (fv_endian fv) (c_endian c) then "" else "byteorder-not-recognised");
                  (if (fv_ndims fv =? ndims_of (c_calls c))%N then "" else "header-ndims");
-                 (if names_eqb names (expected_names (c_calls c)) then "" else "bat-order");
+                 (if names_eqb names (expected_names_ord (keys_of_names order) (c_calls c)) then "" else "bat-order");
                  (if forallb (fun d => bytes_eqb (d_type d) (expected_type (d_n1 d, d_n2 d))) (fv_descs fv)
                   then "" else "bat-block-type");
                  (if forallb (fun d => (d_locked d =? 0)%N) (fv_descs fv) then "" else "bat-locked")])
@@ -309,7 +329,7 @@ Definition check_c12 (order : list bname) (bound : bound_kind) (c : case) : stri
                  (if endian_eqb (c_r_endian c) (c_endian c) then "" else "reader-byteorder");
                  (if c_r_header_ok c then "" else "reader-file-header");
                  (if (c_r_ndims c =? ndims_of (c_calls c))%N then "" else "reader-ndims");
-                 (if names_eqb (c_r_names c) (expected_names (c_calls c)) then "" else "reader-block-names")]) in
+                 (if names_eqb (c_r_names c) (expected_names_ord (keys_of_names order) (c_calls c)) then "" else "reader-block-names")]) in
   join (nonempty [m; f; r]).
 
 (* C13: content *)
